@@ -412,6 +412,9 @@ def reuse_checks(ctx, prev, m, pools, origin):
             runner = ScriptRunner(body, data_values_nest_level=lvl)
             failing = ScriptRunner('w = ${%n_subsets} // 0\n' + body, data_values_nest_level=lvl)
             seq = []
+            kept_runs = []
+            view_of = lambda d: [(k, repr(d.get(k))[:200]) for k in ['v%d' % j for j in range(len(exprs))] + ['PBK_FILENAME']] + [
+                ('PBK_BUFR_MESSAGE is', id(d.get('PBK_BUFR_MESSAGE')))]
             for which, msg in (('A', prev), ('B', m), ('fail', m), ('A', prev), ('B', m)):
                 if which == 'fail':
                     try:
@@ -429,10 +432,20 @@ def reuse_checks(ctx, prev, m, pools, origin):
                 fresh = ScriptRunner(body, data_values_nest_level=lvl).run(msg)
                 seq.append((which, [repr(got.get('v%d' % j)) for j in range(len(exprs))],
                             [repr(fresh.get('v%d' % j)) for j in range(len(exprs))]))
+                # the variables a run returned belong to the caller: kept (as `[runner.run(m) for m in messages]` keeps them),
+                # they still show that run's bindings after the later runs
+                kept_runs.append((which, got, view_of(got)))
+                got['note_of_the_caller'] = which
         except Exception as e:
             ctx.violate('run-raises:%s/reuse' % type(e).__name__, 'a reused runner raised %s: %s' % (type(e).__name__, str(e)[:100]),
                         spec, exc=e)
             return
+        for k, (which, d, snap) in enumerate(kept_runs):
+            ctx.count('kept_run_results_reread')
+            if view_of(d) != snap or d.get('note_of_the_caller') != which:
+                ctx.violate('runner-reuse/earlier-result-changed', 'the variables returned by run %d (message %s) of a reused runner no longer show '
+                            'what they showed when they were returned, after %d later runs' % (k, which, len(kept_runs) - 1 - k), spec)
+                return
         for k, (which, got, fresh) in enumerate(seq):
             ctx.count('reuse_runs')
             ctx.evaluated((body, lvl, k, origin, id(m) % 1000), True)
